@@ -139,7 +139,7 @@ def g_fmt(rng, depth, mdc_class_ok):
             args.append([lit(rng.choice(["utc", "local"]))])
         return fmt(nm, args, sp)
     nm = rng.choice(pc.MDC)
-    nonempty = [x for x in pc.MDC_KEYS if x and not any(ch in pc.SPECIALS for ch in x)]
+    nonempty = [x for x in pc.MDC_KEYS + ["k:1", "a.b<c"] if x and not any(ch in pc.SPECIALS for ch in x)]
     if mdc_class_ok and rng.chance(1, 6):
         args = [g_multi(rng)] if rng.chance(1, 2) else [g_single(rng, nonempty), g_multi(rng)]
     else:
